@@ -42,13 +42,23 @@ type wireResult struct {
 	Derived    map[string]any   `json:"d,omitempty"`
 	Stack      string           `json:"s,omitempty"`
 	Sub        int              `json:"u,omitempty"`
+	More       []wireResult     `json:"x,omitempty"`
+	Replay     json.RawMessage  `json:"r,omitempty"`
 }
 
 func toWire(r Result) wireResult {
-	return wireResult{r.V, r.Class, r.Msg, r.NonTrivial, r.Key, r.Feat, r.Cells, r.Derived, r.Stack, r.Sub}
+	w := wireResult{r.V, r.Class, r.Msg, r.NonTrivial, r.Key, r.Feat, r.Cells, r.Derived, r.Stack, r.Sub, nil, r.Replay}
+	for _, m := range r.More {
+		w.More = append(w.More, toWire(m))
+	}
+	return w
 }
 func fromWire(w wireResult) Result {
-	return Result{V: w.V, Class: w.Class, Msg: w.Msg, NonTrivial: w.NonTrivial, Key: w.Key, Feat: w.Feat, Cells: w.Cells, Derived: w.Derived, Stack: w.Stack, Sub: w.Sub}
+	r := Result{V: w.V, Class: w.Class, Msg: w.Msg, NonTrivial: w.NonTrivial, Key: w.Key, Feat: w.Feat, Cells: w.Cells, Derived: w.Derived, Stack: w.Stack, Sub: w.Sub, Replay: w.Replay}
+	for _, m := range w.More {
+		r.More = append(r.More, fromWire(m))
+	}
+	return r
 }
 
 // Self is the path of the running vcheck binary (set by the driver).
@@ -59,7 +69,8 @@ var Self string
 type DeathClassifier interface {
 	// ClassifyDeath receives the descriptor, the kind ("oom", "stackoverflow",
 	// "fatal", "hang", "killed") the runtime message and the top repo frame.
-	ClassifyDeath(desc any, kind, msg, frame string) Result
+	// cur is what the child recorded with RecordInput before the fatal call (may be empty).
+	ClassifyDeath(desc any, kind, msg, frame string, cur []byte) Result
 }
 
 func runIsolated(p Property, cases []any, opt Options) []caseOut {
@@ -109,7 +120,9 @@ func runIsolated(p Property, cases []any, opt Options) []caseOut {
 				log := filepath.Join(scratch, fmt.Sprintf("log.%d.%d", sh, round))
 				round++
 				cmd := exec.Command(Self, "worker", p.ID(), casefile, strconv.Itoa(sh), strconv.Itoa(nsh), strconv.Itoa(pos), log)
-				cmd.Env = append(os.Environ(), "VERIF_TIER="+opt.Tier, "VERIF_SEED="+strconv.FormatUint(opt.Seed, 10), "VERIF_ROOT="+Root)
+				cur := filepath.Join(scratch, fmt.Sprintf("cur.%d", sh))
+				os.Remove(cur)
+				cmd.Env = append(os.Environ(), "VERIF_TIER="+opt.Tier, "VERIF_SEED="+strconv.FormatUint(opt.Seed, 10), "VERIF_ROOT="+Root, "VERIF_CURFILE="+cur)
 				errf, _ := os.Create(log + ".err")
 				cmd.Stderr = errf
 				cmd.Stdout = errf
@@ -140,7 +153,8 @@ func runIsolated(p Property, cases []any, opt Options) []caseOut {
 				kind, msg, frame, dump := classifyDeath(log+".err", runErr)
 				var r Result
 				if dc, ok := p.(DeathClassifier); ok {
-					r = dc.ClassifyDeath(cases[open], kind, msg, frame)
+					curBytes := ReadRecordedInput(filepath.Join(scratch, fmt.Sprintf("cur.%d", sh)))
+					r = dc.ClassifyDeath(cases[open], kind, msg, frame, curBytes)
 				} else {
 					r = Result{V: Violated, Class: "death:" + kind + "@" + frame, Msg: msg, NonTrivial: true}
 				}
@@ -270,6 +284,67 @@ func frameOfCaseGoroutine(dump string) string {
 	return TopRepoFrame(dump)
 }
 
+// caseStart is the wall-clock start of the call being watched (unix nanos, 0 =
+// idle).  Batch cases call Beat() before every library call so that the
+// watchdog measures one call, not the whole batch.
+var caseStart atomic.Int64
+
+// Beat restarts the watchdog interval.
+func Beat() {
+	if caseStart.Load() != 0 {
+		caseStart.Store(time.Now().UnixNano())
+	}
+}
+
+// CurFile is where an isolated child records the input it is about to feed to
+// the library (set from VERIF_CURFILE); the parent reads it when the child dies.
+var CurFile = os.Getenv("VERIF_CURFILE")
+
+// RecordInput writes the current input (one completed pwrite) before a risky
+// call: 8-byte little-endian length, then "meta\n" + bytes.
+var (
+	curFH  *os.File
+	curBuf []byte
+)
+
+func RecordInput(meta string, b []byte) {
+	if CurFile == "" {
+		return
+	}
+	if curFH == nil {
+		f, err := os.OpenFile(CurFile, os.O_CREATE|os.O_WRONLY, 0o644)
+		if err != nil {
+			return
+		}
+		curFH = f
+	}
+	n := len(meta) + 1 + len(b)
+	curBuf = curBuf[:0]
+	for i := 0; i < 8; i++ {
+		curBuf = append(curBuf, byte(uint64(n)>>(8*uint(i))))
+	}
+	curBuf = append(curBuf, meta...)
+	curBuf = append(curBuf, '\n')
+	curBuf = append(curBuf, b...)
+	curFH.WriteAt(curBuf, 0)
+}
+
+// ReadRecordedInput returns what RecordInput stored last.
+func ReadRecordedInput(path string) []byte {
+	raw, err := os.ReadFile(path)
+	if err != nil || len(raw) < 8 {
+		return nil
+	}
+	n := 0
+	for i := 0; i < 8; i++ {
+		n |= int(raw[i]) << (8 * uint(i))
+	}
+	if n < 0 || 8+n > len(raw) {
+		return nil
+	}
+	return raw[8 : 8+n]
+}
+
 // WorkerMain is the body of `vcheck worker`.
 func WorkerMain(p Property, casefile string, sh, nsh, startPos int, logPath string) int {
 	lim := syscall.Rlimit{Cur: ChildAS, Max: ChildAS}
@@ -291,7 +366,6 @@ func WorkerMain(p Property, casefile string, sh, nsh, startPos int, logPath stri
 		return 2
 	}
 	defer lg.Close()
-	var caseStart atomic.Int64 // unix nanos of the running case, 0 = idle
 	go func() {
 		for {
 			time.Sleep(500 * time.Millisecond)
